@@ -36,7 +36,7 @@ def gen_cases(ctx):
     cases = []
     Ps = [1, 2, 3, 4, 5, 6, 8, 9, 13] if ctx.quick else list(range(1, 20)) + [24, 32, 33]
     for P in Ps:
-        for rep in range(6 if ctx.quick else 20):
+        for rep in range(14 if ctx.quick else 40):
             nvars = rng.choice([1, 2, 3, 4])
             rounds = rng.choice([1, 2])
             styles = [rng.choice(["any", "pos", "neg", "ties", "empty", "any"]) for _ in range(nvars)]
@@ -46,10 +46,13 @@ def gen_cases(ctx):
                 redo = [True] * nvars if rd == 0 else [rng.random() < 0.5 for _ in range(nvars)]
                 rdata = []
                 pattern = [rng.choice(["rand", "only_low", "only_high", "all_but_one", "all"]) for _ in range(nvars)]
+                # in a later round a variable may also be clean on SOME ranks only: those ranks contribute no sample to
+                # this computation and keep their old values, the others obtain the statistics of the dirty ranks
+                mixed = [rd > 0 and redo[i] and rng.random() < 0.4 for i in range(nvars)]
                 for q in range(P):
                     row = []
                     for i in range(nvars):
-                        if not redo[i]:
+                        if not redo[i] or (mixed[i] and rng.random() < 0.4):
                             row.append((2, []))
                             continue
                         pat = pattern[i]
@@ -141,10 +144,11 @@ def run(ctx):
         prev = {}
         for rd in range(rounds):
             for i in range(nvars):
-                redo = data[rd][0][i][0] != 2
-                if redo:
-                    for q in range(P):
-                        contrib[i][q] = list(data[rd][q][i][1])
+                dirty = [data[rd][q][i][0] != 2 for q in range(P)]
+                # the union of this computation: the samples of the ranks on which the variable is dirty
+                contrib[i] = [list(data[rd][q][i][1]) if dirty[q] else [] for q in range(P)]
+                if any(dirty) and not all(dirty):
+                    dist["vars_clean_on_some_ranks"] = dist.get("vars_clean_on_some_ranks", 0) + 1
                 exp = oracle_var(P, contrib[i])
                 dist["vars"] += 1
                 if any(not xs for xs in contrib[i]):
@@ -161,7 +165,7 @@ def run(ctx):
                                variance=bitsd(int(w[9], 16)), standev=bitsd(int(w[10], 16)), variance_mean=bitsd(int(w[11], 16)),
                                standev_mean=bitsd(int(w[12], 16)))
                     bad = None
-                    if not redo and rd > 0 and prev.get((q, i)) is not None and prev[(q, i)]["dirty"] == 0:
+                    if not dirty[q] and rd > 0 and prev.get((q, i)) is not None and prev[(q, i)]["dirty"] == 0:
                         # clean variable: untouched
                         dist["clean_vars"] += 1
                         if w != prev[(q, i)]["raw"]:
@@ -197,7 +201,7 @@ def run(ctx):
                 ok = True
                 for q in range(P):
                     ds = struct.unpack("<7d", ins[q][56 * i:56 * i + 56])
-                    if any(d != int(d) for d in ds):
+                    if any(d != d or abs(d) >= 2.0 ** 62 or d != int(d) for d in ds):
                         ok = False
                     recs.append(" ".join(mpitrace.hexints(int(d).to_bytes(8, "little", signed=True), 8, True) for d in ds) if ok else "")
                 if not ok:
